@@ -100,6 +100,10 @@ class Ref:
             for k in [k for k in self.m if k[0] == f[1]]:
                 del self.m[k]
             return "ok"
+        if op == "cmatch":
+            # concurrent lookups: each must answer what it answers alone
+            parts = [self.expect(["match", f[1], t]) for t in f[2].split(",")]
+            return None if any(p is None for p in parts) else " | ".join(parts)
         if op == "match":
             ty, topic = int(f[1]), f[2]
             if not topic_is_plain(topic):
@@ -336,6 +340,11 @@ def gen_history(rng, p_shared, nmax=80, pool_mod=None):
         ops.append(f"client {c} 7"); ops.append(f"cstats {c}")
     for f in pool[:4]:
         ops.append(f"match 7 {topic_for(rng, f)}")
+    # the same kind of lookup from several goroutines at once (readers share the store's read lock)
+    ts = sorted({topic_for(rng, f) for f in pool[:6]} - {""})
+    ts = [t for t in ts if topic_is_plain(t) and "," not in t and " " not in t]
+    if len(ts) >= 2 and rng.random() < 0.5:
+        ops.append(f"cmatch 7 {','.join(ts[:5])}")
     return ops
 
 def gen(rng):
